@@ -57,7 +57,17 @@ func checkC02(r *Run) {
 	// the fit test compares msize with 4 + Codec.Size(fcall) while the bytes written come from Marshal: the frame
 	// bound holds only if size9p and encode agree for every type and every special case (codec-grammar rules)
 	c01Grammar(r)
-	c02CallerBuffer(r, []*ssa.Function{wf, mt, sm, mm})
+	cbScope := []*ssa.Function{}
+	cbSeen := map[*ssa.Function]bool{}
+	for _, f := range []*ssa.Function{wf, mt, sm, mm} {
+		for _, g := range p.withHelpers(f, 1) {
+			if !cbSeen[g] && (g == f || g.Pkg == f.Pkg && fnName(g) != "p9p.newFcall") {
+				cbSeen[g] = true
+				cbScope = append(cbScope, g)
+			}
+		}
+	}
+	c02CallerBuffer(r, cbScope)
 }
 
 // ---- (1) ordering in WriteFcall ------------------------------------------------
@@ -185,139 +195,169 @@ func c02WriteOrder(r *Run, wf *ssa.Function) {
 
 // ---- (2,3,4) maybeTruncate -------------------------------------------------------
 
-func c02Truncate(r *Run, mt *ssa.Function) {
+func c02Truncate(r *Run, mtTop *ssa.Function) {
 	p := r.P
-	fa := p.FA(mt)
-	fcallParam := mt.Params[1]
+	nNil, nErr, nTrunc, nTread := 0, 0, 0, 0
+	var classify func(mt *ssa.Function, fcallParam *ssa.Parameter, msgOK func(base *Sym) bool, depth int)
+	classify = func(mt *ssa.Function, fcallParam *ssa.Parameter, msgOK func(base *Sym) bool, depth int) {
+		fa := p.FA(mt)
 
-	// size(fcall) calls on the fcall parameter itself, and the msize loads
-	isSizeOfFcall := func(s *Sym) bool {
-		return isMsgmsizeCall(s) && len(s.Args) == 2 && s.Args[1].K == "p:"+fcallParam.Name()
-	}
-	// sizeMinusMsize recognises a Lin of the exact shape  msgmsize(fcall) - channel.msize
-	sizeMinusMsize := func(l *Lin) bool {
-		if l.C != 0 || len(l.T) != 2 {
-			return false
+		// size(fcall) calls on the fcall parameter itself, and the msize loads
+		isSizeOfFcall := func(s *Sym) bool {
+			return isMsgmsizeCall(s) && len(s.Args) == 2 && s.Args[1].K == "p:"+fcallParam.Name()
 		}
-		okS, okM := false, false
-		for k, c := range l.T {
-			a := l.Atoms[k]
-			if c == 1 && isSizeOfFcall(a) {
-				okS = true
+		// sizeMinusMsize recognises a Lin of the exact shape  msgmsize(fcall) - channel.msize
+		sizeMinusMsize := func(l *Lin) bool {
+			if l.C != 0 || len(l.T) != 2 {
+				return false
 			}
-			if c == -1 && isChanFieldAtom(a, "msize") {
-				okM = true
+			okS, okM := false, false
+			for k, c := range l.T {
+				a := l.Atoms[k]
+				if c == 1 && isSizeOfFcall(a) {
+					okS = true
+				}
+				if c == -1 && isChanFieldAtom(a, "msize") {
+					okM = true
+				}
 			}
+			return okS && okM
 		}
-		return okS && okM
-	}
-	// goalFits: facts at instruction ⊨ size - msize <= 0 for some size/msize pair visible in the facts
-	sizePairs := func(facts []Fact) []*Lin {
-		var sizes, msizes []*Sym
-		seen := map[string]bool{}
-		for _, f := range facts {
-			for k, a := range f.L.Atoms {
-				if seen[k] {
+		// goalFits: facts at instruction ⊨ size - msize <= 0 for some size/msize pair visible in the facts
+		sizePairs := func(facts []Fact) []*Lin {
+			var sizes, msizes []*Sym
+			seen := map[string]bool{}
+			for _, f := range facts {
+				for k, a := range f.L.Atoms {
+					if seen[k] {
+						continue
+					}
+					seen[k] = true
+					if isSizeOfFcall(a) {
+						sizes = append(sizes, a)
+					}
+					if isChanFieldAtom(a, "msize") {
+						msizes = append(msizes, a)
+					}
+				}
+			}
+			var out []*Lin
+			for _, s := range sizes {
+				for _, m := range msizes {
+					out = append(out, linAtom(s).Sub(linAtom(m)))
+				}
+			}
+			return out
+		}
+
+		// classify each return
+		for _, ret := range returnSites(mt) {
+			if len(ret.Results) != 1 {
+				continue
+			}
+			// a clause moved into a helper: `return ch.helper(fcall, msg)` — the helper's exits are exits of the partition
+			if c, ok := ret.Results[0].(*ssa.Call); ok && depth < 2 {
+				if g := staticCallee(&c.Call); g != nil && g.Blocks != nil && p.InModule(g) && g != mt {
+					var fp, mp *ssa.Parameter
+					for i, a := range c.Call.Args {
+						if i >= len(g.Params) {
+							break
+						}
+						if a == ssa.Value(fcallParam) {
+							fp = g.Params[i]
+						} else if sa := fa.Sym(a); strings.Contains(sa.K, "ld(&p:"+fcallParam.Name()+".Message)") {
+							mp = g.Params[i]
+						}
+					}
+					if fp != nil {
+						r.SawFn(fnName(g))
+						classify(g, fp, func(base *Sym) bool {
+							return mp != nil && strings.HasPrefix(base.K, "p:"+mp.Name()) && strings.HasSuffix(base.K, ".Data")
+						}, depth+1)
+						continue
+					}
+				}
+			}
+			conds := ret.Conds()
+			inTread := false
+			for _, c := range conds {
+				if e, ok := normCond(c).V.(*ssa.Extract); ok && c.Truth && e.Index == 1 {
+					if ta, ok := e.Tuple.(*ssa.TypeAssert); ok && isP9P(ta.AssertedType, "MessageTread") {
+						inTread = true
+					}
+				}
+			}
+			facts := fa.FactsAtSite(ret)
+			res := ret.Results[0]
+			key := fmt.Sprintf("maybeTruncate return#%d", nNil+nErr+nTread)
+			if inTread {
+				nTread++
+				continue // handled by the Tread rule below
+			}
+			if isNilConst(res) {
+				nNil++
+				// (a) fits
+				fits := false
+				for _, d := range sizePairs(facts) {
+					if Entails(facts, d) {
+						fits = true
+					}
+				}
+				if fits {
+					r.Ok("partition", "maybeTruncate: nil return on an edge implying msgmsize(fcall) <= msize ["+condStr(conds)+"]", ret.Pos(), factStrings(facts)...)
 					continue
 				}
-				seen[k] = true
-				if isSizeOfFcall(a) {
-					sizes = append(sizes, a)
+				// (b) follows the exact truncation
+				if ok, why := c02TwriteTruncation(fa, mt, ret, fcallParam, sizeMinusMsize, facts, msgOK); ok {
+					nTrunc++
+					r.Ok("twrite-truncation", "maybeTruncate: nil return after exact Twrite truncation", ret.Pos(), why)
+					continue
+				} else if why != "" {
+					r.Bad("twrite-truncation", "maybeTruncate: nil return after exact Twrite truncation", ret.Pos(), why, factStrings(facts)...)
+					continue
 				}
-				if isChanFieldAtom(a, "msize") {
-					msizes = append(msizes, a)
-				}
+				r.Bad("partition", "maybeTruncate: nil return ["+condStr(conds)+"]", ret.Pos(),
+					"maybeTruncate returns nil (message will be sent) on a path where neither msgmsize(fcall) <= msize is implied nor the message was truncated to fit",
+					factStrings(facts)...)
+				_ = key
+				continue
 			}
-		}
-		var out []*Lin
-		for _, s := range sizes {
-			for _, m := range msizes {
-				out = append(out, linAtom(s).Sub(linAtom(m)))
+			// error return: must be overflowErr{size: size-msize} on an edge implying size > msize
+			nErr++
+			flds, named, ok := compositeFields(res)
+			if !ok || named == nil || named.Obj().Name() != "overflowErr" {
+				r.Undecided("partition", "maybeTruncate: error return", ret.Pos(), "error return is not an overflowErr literal: cannot relate it to the excess")
+				continue
 			}
-		}
-		return out
-	}
-
-	// classify each return
-	nNil, nErr, nTrunc, nTread := 0, 0, 0, 0
-	for _, ret := range returnSites(mt) {
-		if len(ret.Results) != 1 {
-			continue
-		}
-		conds := ret.Conds()
-		inTread := false
-		for _, c := range conds {
-			if e, ok := normCond(c).V.(*ssa.Extract); ok && c.Truth && e.Index == 1 {
-				if ta, ok := e.Tuple.(*ssa.TypeAssert); ok && isP9P(ta.AssertedType, "MessageTread") {
-					inTread = true
-				}
+			sz := flds["size"]
+			if sz == nil {
+				r.Bad("overflow-amount", "maybeTruncate: overflowErr.size", ret.Pos(), "overflow error does not report a size")
+				continue
 			}
-		}
-		facts := fa.FactsAtSite(ret)
-		res := ret.Results[0]
-		key := fmt.Sprintf("maybeTruncate return#%d", nNil+nErr+nTread)
-		if inTread {
-			nTread++
-			continue // handled by the Tread rule below
-		}
-		if isNilConst(res) {
-			nNil++
-			// (a) fits
-			fits := false
+			l := fa.Lin(sz)
+			r.Check(sizeMinusMsize(l), "overflow-amount", "maybeTruncate: overflowErr.size == msgmsize(fcall) - msize", ret.Pos(),
+				"overflow error reports "+l.String()+" instead of msgmsize(fcall) - msize", "size = "+l.String())
+			// on an edge implying size > msize: facts ⊨ msize - size + 1 <= 0
+			over := false
 			for _, d := range sizePairs(facts) {
-				if Entails(facts, d) {
-					fits = true
+				if Entails(facts, d.Scale(-1).Add(linConst(1))) {
+					over = true
 				}
 			}
-			if fits {
-				r.Ok("partition", "maybeTruncate: nil return on an edge implying msgmsize(fcall) <= msize ["+condStr(conds)+"]", ret.Pos(), factStrings(facts)...)
-				continue
-			}
-			// (b) follows the exact truncation
-			if ok, why := c02TwriteTruncation(fa, mt, ret, fcallParam, sizeMinusMsize, facts); ok {
-				nTrunc++
-				r.Ok("twrite-truncation", "maybeTruncate: nil return after exact Twrite truncation", ret.Pos(), why)
-				continue
-			} else if why != "" {
-				r.Bad("twrite-truncation", "maybeTruncate: nil return after exact Twrite truncation", ret.Pos(), why, factStrings(facts)...)
-				continue
-			}
-			r.Bad("partition", "maybeTruncate: nil return ["+condStr(conds)+"]", ret.Pos(),
-				"maybeTruncate returns nil (message will be sent) on a path where neither msgmsize(fcall) <= msize is implied nor the message was truncated to fit",
-				factStrings(facts)...)
-			_ = key
-			continue
+			r.Check(over, "partition", "maybeTruncate: overflow error only on an edge implying msgmsize(fcall) > msize ["+condStr(conds)+"]", ret.Pos(),
+				"a message that fits exactly (size == msize) or smaller can be refused with an overflow error", factStrings(facts)...)
 		}
-		// error return: must be overflowErr{size: size-msize} on an edge implying size > msize
-		nErr++
-		flds, named, ok := compositeFields(res)
-		if !ok || named == nil || named.Obj().Name() != "overflowErr" {
-			r.Undecided("partition", "maybeTruncate: error return", ret.Pos(), "error return is not an overflowErr literal: cannot relate it to the excess")
-			continue
-		}
-		sz := flds["size"]
-		if sz == nil {
-			r.Bad("overflow-amount", "maybeTruncate: overflowErr.size", ret.Pos(), "overflow error does not report a size")
-			continue
-		}
-		l := fa.Lin(sz)
-		r.Check(sizeMinusMsize(l), "overflow-amount", "maybeTruncate: overflowErr.size == msgmsize(fcall) - msize", ret.Pos(),
-			"overflow error reports "+l.String()+" instead of msgmsize(fcall) - msize", "size = "+l.String())
-		// on an edge implying size > msize: facts ⊨ msize - size + 1 <= 0
-		over := false
-		for _, d := range sizePairs(facts) {
-			if Entails(facts, d.Scale(-1).Add(linConst(1))) {
-				over = true
-			}
-		}
-		r.Check(over, "partition", "maybeTruncate: overflow error only on an edge implying msgmsize(fcall) > msize ["+condStr(conds)+"]", ret.Pos(),
-			"a message that fits exactly (size == msize) or smaller can be refused with an overflow error", factStrings(facts)...)
 	}
+	fcallTop := mtTop.Params[1]
+	classify(mtTop, fcallTop, func(base *Sym) bool {
+		return strings.Contains(base.K, "ld(&p:"+fcallTop.Name()+".Message)") && strings.HasSuffix(base.K, ".Data")
+	}, 0)
 	r.Floor("partition", nNil, 3, "nil returns outside the Tread clause")
 	r.Floor("partition", nErr, 2, "overflow error returns")
 	r.Floor("twrite-truncation", nTrunc, 1, "truncating path")
+	_ = nTread
 
-	c02Tread(r, fa, mt, fcallParam)
+	c02Tread(r, p.FA(mtTop), mtTop, fcallTop)
 }
 
 func condStr(cs []Cond) string {
@@ -343,7 +383,7 @@ func storesToField(fn *ssa.Function, base ssa.Value, field string) []*ssa.Store 
 	return out
 }
 
-func c02TwriteTruncation(fa *FA, mt *ssa.Function, ret retSite, fcallParam ssa.Value, sizeMinusMsize func(*Lin) bool, facts []Fact) (bool, string) {
+func c02TwriteTruncation(fa *FA, mt *ssa.Function, ret retSite, fcallParam ssa.Value, sizeMinusMsize func(*Lin) bool, facts []Fact, msgOK func(base *Sym) bool) (bool, string) {
 	// a store fcall.Message = <MessageTwrite with Data re-sliced> dominating the return
 	for _, st := range storesToField(mt, fcallParam, "Message") {
 		if !ret.DominatedBy(st) {
@@ -371,7 +411,7 @@ func c02TwriteTruncation(fa *FA, mt *ssa.Function, ret retSite, fcallParam ssa.V
 			return false, "Data is cut by " + d.String() + " bytes instead of msgmsize(fcall) - msize"
 		}
 		// base must be the original Data of the message taken from fcall.Message
-		if !strings.Contains(base.K, "ld(&p:"+fcallParam.Name()+".Message)") || !strings.HasSuffix(base.K, ".Data") {
+		if !msgOK(base) {
 			return false, "re-sliced value is not the Data of the fcall's own message: " + base.K
 		}
 		// guard: facts ⊨ hi >= 0  (len(Data) >= overflow)
